@@ -6,12 +6,21 @@
 #include <set>
 #include <new>
 #include <valgrind/memcheck.h>
+#include <setjmp.h>
+#include <signal.h>
+#include <sys/time.h>
 
 const SutInfo* g_info = 0;
 int g_logger_mode = 0;
 volatile int g_in_sut = 0;
 uint64_t g_allocs_in_sut = 0;
 Stats g_stats;
+
+// watchdog: a CPU-time timer armed per run; if it fires while an FFSM2 call is on the stack the call is abandoned
+// (C04: the call does not return), the instance is given up and the run ends -- the worker survives and reports
+// whatever the monitors had already seen in that run
+sigjmp_buf g_hang_jmp; volatile sig_atomic_t g_hang_armed = 0, g_hang_pending = 0;
+void arm_run_timer(int seconds) { struct itimerval t; memset(&t, 0, sizeof(t)); t.it_value.tv_sec = seconds; setitimer(ITIMER_VIRTUAL, &t, 0); }
 std::set<uint64_t> g_abstract_states;
 
 //---------------------------------------------------------------------------------------------
@@ -186,6 +195,7 @@ static bool normalise_action(SutAction& a, const SutView* v) {
 	if (a.kind == A_CHANGE_TO || a.kind == A_CHANGE_WITH || a.kind == A_SUCCEED || a.kind == A_FAIL) a.a = static_cast<uint8_t>(a.a % N);
 	if (a.kind == A_PLAN_APPEND || a.kind == A_PLAN_APPEND_WITH) { a.a = static_cast<uint8_t>(a.a % N); a.b = static_cast<uint8_t>(a.b % N); }
 	if (a.kind == A_CHANGE_TO || a.kind == A_PLAN_APPEND) { a.has_payload = 0; memset(a.payload, 0, sizeof(a.payload)); }
+	if (a.kind == A_CHANGE_WITH || a.kind == A_PLAN_APPEND_WITH) { const uint32_t s = ++W.cur->payload_seq; a.payload[0] = static_cast<uint8_t>(s); if (g_info->payload_vsize > 1) a.payload[1] = static_cast<uint8_t>(s >> 8); }
 	for (int i = g_info->payload_vsize; i < SUT_MAX_PAYLOAD; ++i) a.payload[i] = 0;
 	if ((a.kind == A_CHANGE_TO || a.kind == A_CHANGE_WITH) && v->flavour == CF_GUARD && W.c->in_contract) {
 		int cap = W.activation ? g_info->limit : g_info->limit - 1;
@@ -199,6 +209,8 @@ extern "C" int sim_hook(const SutView* v, SutAction* out) {
 	const int saved = g_in_sut; g_in_sut = 0;       // nothing the simulator allocates counts against the SUT
 	const int r = sim_hook_body(v, out);
 	g_in_sut = saved;
+	// the watchdog fired while simulator code was running (possibly inside malloc): leave from here, where it is safe
+	if (g_hang_pending) { g_hang_pending = 0; g_hang_armed = 0; siglongjmp(g_hang_jmp, 1); }
 	return r;
 }
 static int sim_hook_body(const SutView* v, SutAction* out) {
@@ -312,6 +324,16 @@ static void init_x(OpExec& x, int kind, const Op* op, int op_index) {
 	for (int i = g_info->payload_vsize; i < SUT_MAX_PAYLOAD; ++i) x.payload[i] = 0;
 }
 
+static void hang_abort(Node& n, int idx, OpExec& x) {
+	Violation v; v.prop = "C04"; v.clause = "call-returns"; v.op_index = x.op_index; v.node = idx;
+	v.msg = std::string("the call (") + (x.kind < OP_COUNT ? OP_NAMES[x.kind] : "construction/destruction") + ") did not return within its CPU-time budget after " + std::to_string(x.hooks.size()) + " callbacks";
+	W.rr->violations.push_back(v);
+	Violation u = v; u.prop = "C18"; u.clause = "no-undefined-behaviour"; W.rr->violations.push_back(u);
+	n.alive = false; n.T.prev_known = false; W.rr->aborted = true;
+	arm_run_timer(10);
+	g_stats.hit("calls_abandoned_by_watchdog");
+}
+
 // constructs a fresh instance for node `idx`; `op` supplies the reactions used by the activation
 static void do_construct(int idx, const Op* op, int op_index, int kind) {
 	Node& n = W.nodes[idx];
@@ -325,9 +347,12 @@ static void do_construct(int idx, const Op* op, int op_index, int kind) {
 	begin_ctx(n, idx, x, (n.role == ROLE_REPLICA) ? 0 : op, true);
 	paint_stack(W.fill_kind, W.fill_seed);
 	x.executed = true;
-	g_in_sut = 1;
-	void* p = sut_construct(n.inst, n.ctx_slot, n.tag, lg ? 1 : 0);
-	g_in_sut = 0;
+	void* volatile p = 0;
+	if (sigsetjmp(g_hang_jmp, 1) == 0) {
+		g_hang_armed = 1; g_in_sut = 1;
+		p = sut_construct(n.inst, n.ctx_slot, n.tag, lg ? 1 : 0);
+		g_in_sut = 0; g_hang_armed = 0;
+	} else { g_in_sut = 0; hang_abort(n, idx, x); return; }
 	n.inst = p; n.alive = true;
 	finish_op(n, idx, x);
 }
@@ -399,6 +424,7 @@ static void run_simple(int idx, int kind, const Op* op, int op_index) {
 	if (!ok) return;
 	if (kind == OP_EXIT && T.slot.has) { drain(idx, op_index); observe(n, x.before); begin_ctx(n, idx, x, op, false); }
 	x.executed = true;
+	if (kind == OP_CHANGE_WITH || kind == OP_IMM_CHANGE_WITH || kind == OP_PLAN_APPEND_WITH) { const uint32_t s = ++W.cur->payload_seq; x.payload[0] = static_cast<uint8_t>(s); if (g_info->payload_vsize > 1) x.payload[1] = static_cast<uint8_t>(s >> 8); }
 	if (kind == OP_CHANGE_TO || kind == OP_CHANGE_WITH || kind == OP_IMM_CHANGE_TO || kind == OP_IMM_CHANGE_WITH || kind == OP_PLAN_APPEND || kind == OP_PLAN_APPEND_WITH || kind == OP_PLAN_FILL || kind == OP_SUCCEED || kind == OP_FAIL || (kind == OP_REPLAY_TRANSITION && x.a != SUT_INVALID)) {
 		// c bit0 / bit1: argument a / b names the currently active state
 		if ((x.c & 1) && T.open >= 0) x.a = T.open;
@@ -406,6 +432,8 @@ static void run_simple(int idx, int kind, const Op* op, int op_index) {
 	}
 	paint_stack(W.fill_kind, W.fill_seed ^ static_cast<uint64_t>(op_index));
 	void* I = n.inst;
+	if (sigsetjmp(g_hang_jmp, 1) != 0) { g_in_sut = 0; hang_abort(n, idx, x); return; }
+	g_hang_armed = 1;
 	g_in_sut = 1;
 	switch (kind) {
 	case OP_UPDATE: sut_update(I); break;
@@ -424,9 +452,13 @@ static void run_simple(int idx, int kind, const Op* op, int op_index) {
 		x.a = static_cast<int>(static_cast<unsigned>(x.a) % N); x.b = static_cast<int>(static_cast<unsigned>(x.b) % N);
 		for (unsigned i = 0; i <= g_info->capacity; ++i) {
 			int r;
-			if (payload && (i & 1)) { uint8_t pl[SUT_MAX_PAYLOAD]; memset(pl, 0, sizeof(pl)); pl[0] = static_cast<uint8_t>(i); r = sut_plan_append_with(I, x.a, static_cast<int>((static_cast<unsigned>(x.b) + i) % N), pl); }
-			else r = sut_plan_append(I, x.a, static_cast<int>((static_cast<unsigned>(x.b) + i) % N));
-			g_in_sut = 0; x.results.push_back(r); g_in_sut = 1;
+			SutTask ft; memset(&ft, 0, sizeof(ft)); ft.origin = static_cast<uint8_t>(x.a); ft.dest = static_cast<uint8_t>((static_cast<unsigned>(x.b) + i) % N);
+			if (payload && (i & 1)) {
+				ft.has_payload = 1; const uint32_t s = ++W.cur->payload_seq;
+				for (int b = 0; b < g_info->payload_vsize; ++b) ft.payload[b] = b == 0 ? static_cast<uint8_t>(s) : b == 1 ? static_cast<uint8_t>(s >> 8) : b == 7 ? 0x31 : 0xF1;
+				r = sut_plan_append_with(I, ft.origin, ft.dest, ft.payload);
+			} else r = sut_plan_append(I, ft.origin, ft.dest);
+			g_in_sut = 0; x.results.push_back(r); x.filled.push_back(ft); g_in_sut = 1;
 		}
 		break; }
 	case OP_SUCCEED: x.a = static_cast<int>(static_cast<unsigned>(x.a) % N); sut_succeed(I, x.a); break;
@@ -479,6 +511,7 @@ static void run_simple(int idx, int kind, const Op* op, int op_index) {
 	default: break;
 	}
 	g_in_sut = 0;
+	g_hang_armed = 0;
 	if (kind == OP_UPDATE || kind == OP_REACT) ++g_stats.ticks;
 	finish_op(n, idx, x);
 
@@ -510,6 +543,7 @@ static void deliver(int count, int op_index) {
 
 RunResult execute_case(const Case& c, const ExecMode& mode) {
 	RunResult rr;
+	arm_run_timer(8);
 	if (!g_info) g_info = sut_info();
 	if (!W.arena) {
 		W.slot_size = (g_info->inst_size + 127u) & ~static_cast<size_t>(63);
@@ -543,7 +577,7 @@ RunResult execute_case(const Case& c, const ExecMode& mode) {
 			if (!a.alive || forks >= MAX_FORKS || W.nodes.size() >= 1 + MAX_FORKS + 2 + 4) break;
 			int s = pick_slot(); if (s < 0) break;
 			dirty_slot(s);
-			Node f; f.role = ROLE_FORK; f.ctx_slot = a.ctx_slot; f.tag = a.tag; f.slot = s; f.T = a.T;
+			Node f; f.role = ROLE_FORK; f.ctx_slot = a.ctx_slot; f.tag = a.tag; f.slot = s; f.T = a.T; f.payload_seq = a.payload_seq;
 			f.digest_full = a.digest_full; f.digest_neutral = a.digest_neutral;
 			OpExec x; init_x(x, OP_COPY, &op, oi);
 			W.nodes.push_back(f);
@@ -611,7 +645,7 @@ RunResult execute_case(const Case& c, const ExecMode& mode) {
 			}
 			break; }
 		}
-		if (rr.violations.size() > 40) break;
+		if (rr.violations.size() > 40 || rr.aborted) break;
 	}
 	// end of history: drain the channel, then tear every instance down properly
 	const int endi = static_cast<int>(c.ops.size());
